@@ -96,7 +96,7 @@ pub fn generated_seeds(thorough: bool) -> Vec<Seed> {
         v.push(seed("gen:debug", "Debug", item));
     }
     // Default
-    for item in ["struct X;", "struct X(#[default(5)] u8, i32);", "struct X { #[default(\"abc\")] a: String, b: i32 }", "#[default(X(1, 2))] struct X(u8, i32);", "enum X { A, #[default] B(u8), C }", "enum X { A { x: u8 } }", "#[default(Self::C)] enum X { A, B(u8), C }", "#[default(_, bound(T))] struct X<T>(Box<T>);", "enum X<T> { A, #[default(_, bound(T: Default))] B { #[default(_, bound(..))] t: T } }"] {
+    for item in ["struct X { #[default(\"a  b\\tc   d\")] s: String, #[default(' ')] t: char }", "struct X;", "struct X(#[default(5)] u8, i32);", "struct X { #[default(\"abc\")] a: String, b: i32 }", "#[default(X(1, 2))] struct X(u8, i32);", "enum X { A, #[default] B(u8), C }", "enum X { A { x: u8 } }", "#[default(Self::C)] enum X { A, B(u8), C }", "#[default(_, bound(T))] struct X<T>(Box<T>);", "enum X<T> { A, #[default(_, bound(T: Default))] B { #[default(_, bound(..))] t: T } }"] {
         v.push(seed("gen:default", "Default", item));
     }
     // Clone / Copy / mixed lists with bounds
